@@ -33,29 +33,30 @@ Proof. exact copy_result_lemma. Qed.
 Print Assumptions C01_copy_result.
 
 (* Copy: after a successful return the destination reference is the root, for Tagger
-   and ReferencePusher destinations, root copied or already present.  Excluded by the
-   last hypothesis: a non-manifest root copied into a Mounter destination with MountFrom
-   set (see C01_tagged_refuted_for_mounted_blob_root). *)
-Theorem C01_tagged_partial :
+   and ReferencePusher destinations, root copied, already present or mounted.  [tag_ok]
+   holds for the current code: c_tagmounted = true since the fix of finding
+   mounted-root-untagged (before it, only when the root cannot be mounted). *)
+Theorem C01_tagged :
   forall (g : graph) (c : cfg) (d0 : list node) (tr : list event) (st : state),
     accepts g c d0 tr = Some st -> returned st = Some true -> c_mode c <> MGraph ->
-    c_mount c && negb (g_ismf g (c_root c)) = false ->
+    tag_ok g c = true ->
     tag st = Some (c_root c).
 Proof. exact tagged_lemma. Qed.
-Print Assumptions C01_tagged_partial.
+Print Assumptions C01_tagged.
 
-(* the same at the level of Copy's arguments: the effective reference (the source
-   reference when the destination reference is blank) resolves to the (mapped) root that
-   Copy returns; the concurrency default is the constant regenerated from copy.go *)
-Theorem C01_tagged_top_partial :
+(* the same at the level of Copy's arguments (the configuration copy_cfg is that of the
+   current code, c_tagmounted = true): the effective reference (the source reference
+   when the destination reference is blank) resolves to the (mapped) root that Copy
+   returns, for every destination kind including Mounter destinations; the concurrency
+   default is the constant regenerated from copy.go *)
+Theorem C01_tagged_top :
   forall (g : graph) (opt : Z) (refpusher mount : bool) (root : node)
          (cached0 d0 : list node) (tags0 : str -> option node) (srcRef dstRef : str) tr st,
-    mount && negb (g_ismf g root) = false ->
     accepts g (copy_cfg defaultConcurrency opt refpusher mount root cached0) d0 tr = Some st ->
     returned st = Some true ->
     tags_after tags0 (eff_ref srcRef dstRef) st (eff_ref srcRef dstRef) = Some root.
 Proof. intros g. exact (copy_tagged_lemma g defaultConcurrency). Qed.
-Print Assumptions C01_tagged_top_partial.
+Print Assumptions C01_tagged_top.
 
 Theorem C01_blank_reference : forall srcRef, eff_ref srcRef [] = srcRef.
 Proof. exact eff_ref_blank. Qed.
@@ -71,15 +72,16 @@ Theorem C01_closure_refuted_without_mt_consistency :
 Proof. exact closure_refuted_without_mt_consistency. Qed.
 Print Assumptions C01_closure_refuted_without_mt_consistency.
 
-(* the full statement of the tag clause (no mount hypothesis) is false for the model of
-   the current code: a blob root that gets mounted triggers OnMounted, which prepareCopy
-   does not wrap, so Copy returns success without tagging *)
-Theorem C01_tagged_refuted_for_mounted_blob_root :
+(* the code before the fix (c_tagmounted = false): a blob root that gets mounted
+   triggers OnMounted, which prepareCopy did not wrap, so Copy returned success without
+   tagging -- the finding mounted-root-untagged, repaired by a `fix:` commit *)
+Theorem C01_tagged_refuted_for_mounted_blob_root_prefix :
   exists g c d0 tr st,
+    c_tagmounted c = false /\
     closed_nodes g d0 /\ accepts g c d0 tr = Some st /\ returned st = Some true /\
     c_mode c <> MGraph /\ tag st <> Some (c_root c).
 Proof. exact tagged_refuted_for_mounted_blob_root. Qed.
-Print Assumptions C01_tagged_refuted_for_mounted_blob_root.
+Print Assumptions C01_tagged_refuted_for_mounted_blob_root_prefix.
 
 (* hypotheses are satisfiable: a concrete 4-node run (shared blob, duplicate successor,
    one node already present, Tagger destination) *)
